@@ -146,7 +146,14 @@ fn run_seq_with(
 ) -> i32 {
     let t0 = Instant::now();
     let (stats, mut col) = explore_all(&cfgs, &params);
-    let extra = extra(&mut col);
+    let mut extra = extra(&mut col);
+    if let Some(mc) = macro_part(prop, tier, &params.probes, &mut col)
+        && let (Some(e), Some(m)) = (extra.as_object_mut(), mc.as_object())
+    {
+        for (k, v) in m {
+            e.insert(k.clone(), v.clone());
+        }
+    }
     let coverage = seq_coverage(&stats, &params, extra);
     eprintln!(
         "[{prop}] configs={} states={} transitions={} depth={} capped={} panics={} secs={:.1}",
@@ -259,6 +266,7 @@ fn run_seq_ilv(
 ) -> i32 {
     let t0 = Instant::now();
     let (sst, mut col) = explore_all(&cfgs, &params);
+    let macro_cov = macro_part(prop, tier, &params.probes, &mut col);
     let t1 = t0.elapsed().as_secs_f64();
     let (ist, icol) = crate::ilv::explore_all(&scs, &opts);
     col.merge(icol);
@@ -286,6 +294,9 @@ fn run_seq_ilv(
     m.insert("samples".into(), json!(samples));
     m.insert("sequential_part".into(), Value::Object(seqc));
     m.insert("concurrent_part".into(), Value::Object(ilvc));
+    if let Some(mc) = macro_cov {
+        m.insert("macro_part".into(), mc);
+    }
     assumptions.push(SC_ASSUMPTION.to_string());
     assumptions.push(HOOK_ASSUMPTION.to_string());
     finish(
@@ -300,6 +311,32 @@ fn run_seq_ilv(
         },
         out,
     )
+}
+
+/// Properties whose sequential oracles also run on the MACRO search (script.rs)
+const MACRO_HOSTS: [&str; 7] = ["C02", "C04", "C09", "C10", "C13", "C14", "C15"];
+
+fn macro_part(prop: &str, tier: &str, probes: &Probes, col: &mut crate::report::Collector) -> Option<Value> {
+    if !MACRO_HOSTS.contains(&prop) {
+        return None;
+    }
+    let thorough = tier == "thorough";
+    let cfgs = crate::script::macro_configs(thorough);
+    let p = crate::script::MacroParams {
+        prop: prop.to_string(),
+        depth: std::env::var("VERIF_MACRO_DEPTH").ok().and_then(|s| s.parse().ok()).unwrap_or(if thorough { 4 } else { 3 }),
+        rich: true,
+        probes: probes.clone(),
+        max_secs: if thorough { 150.0 } else { 8.0 },
+    };
+    let t0 = Instant::now();
+    let (st, c) = crate::script::macro_all(&cfgs, &p);
+    col.merge(c);
+    eprintln!(
+        "[{prop}] MACRO configs={} sequences={} states={} calls={} longest={} capped={} ({:.1}s)",
+        st.configs, st.sequences, st.states, st.calls, st.max_history_calls, st.capped, t0.elapsed().as_secs_f64()
+    );
+    Some(crate::script::macro_coverage(&st))
 }
 
 fn ilv_opts(thorough: bool) -> crate::ilv::IlvOpts {
